@@ -548,9 +548,17 @@ func (dec *decoder) decodeMapProperty(prop j5reflect.Property) error {
 
 func (dec *decoder) decodeMapField(field j5reflect.MapField) error {
 
+	// a key may appear once: a second value for it would silently replace the first
+	seen := map[string]struct{}{}
+
 	switch field := field.(type) {
 	case j5reflect.MapOfScalarField:
 		return dec.jsonObjectBody(func(keyTokenStr string) error {
+			if _, dup := seen[keyTokenStr]; dup {
+				return newFieldError(keyTokenStr, "already set")
+			}
+			seen[keyTokenStr] = struct{}{}
+
 			tok, err := dec.Token()
 			if err != nil {
 				return err
@@ -565,6 +573,11 @@ func (dec *decoder) decodeMapField(field j5reflect.MapField) error {
 
 	case j5reflect.MapOfEnumField:
 		return dec.jsonObjectBody(func(keyTokenStr string) error {
+			if _, dup := seen[keyTokenStr]; dup {
+				return newFieldError(keyTokenStr, "already set")
+			}
+			seen[keyTokenStr] = struct{}{}
+
 			tok, err := dec.Token()
 			if err != nil {
 				return err
